@@ -189,6 +189,55 @@ func UpdateBytes(ann, wd []int, ebgp bool, peerAS uint32, asn4, addPath bool) []
 	return frame(2, body)
 }
 
+// ExtraAttr: optional attributes a conforming peer may attach to an announcement.
+func ExtraAttr(variant string) []byte {
+	switch variant {
+	case "as4path": // AS4_PATH, one AS_SEQUENCE (200000)
+		return []byte{0xc0, 17, 6, 2, 1, 0, 3, 0x0d, 0x40}
+	case "as4path0": // empty AS4_PATH
+		return []byte{0xc0, 17, 0}
+	case "as4aggr": // AS4_AGGREGATOR
+		return []byte{0xc0, 18, 8, 0, 3, 0x0d, 0x40, 10, 0, 0, 1}
+	case "unk": // unknown optional transitive
+		return []byte{0xc0, 99, 2, 1, 2}
+	case "unknt": // unknown optional non-transitive
+		return []byte{0x80, 98, 1, 0}
+	}
+	return nil
+}
+
+// AnnounceWithAttr: like UpdateBytes for one route, plus an extra optional attribute.
+func AnnounceWithAttr(rid int, extra []byte, ebgp bool, peerAS uint32, asn4, addPath bool) []byte {
+	var asns []uint32
+	if ebgp {
+		asns = append(asns, peerAS)
+	}
+	attrs := []byte{0x40, 1, 1, 0}
+	if len(asns) == 0 {
+		attrs = append(attrs, 0x40, 2, 0)
+	} else if asn4 {
+		attrs = append(attrs, 0x40, 2, 6, 2, 1, byte(peerAS>>24), byte(peerAS>>16), byte(peerAS>>8), byte(peerAS))
+	} else {
+		a := peerAS
+		if a > 65535 {
+			a = 23456
+		}
+		attrs = append(attrs, 0x40, 2, 4, 2, 1, byte(a>>8), byte(a))
+	}
+	attrs = append(attrs, 0x40, 3, 4, 192, 0, 2, 77)
+	if !ebgp {
+		attrs = append(attrs, 0x40, 5, 4, 0, 0, 0, 100)
+	}
+	attrs = append(attrs, extra...)
+	body := []byte{0, 0, byte(len(attrs) >> 8), byte(len(attrs))}
+	body = append(body, attrs...)
+	if addPath {
+		body = append(body, 0, 0, 0, 1)
+	}
+	body = append(body, 16, 10, byte(rid))
+	return frame(2, body)
+}
+
 // PoisonBytes: announce 10.<rid>.0.0/16 with v in the AS_PATH (byASN) or in a CLUSTER_LIST attribute.
 func PoisonBytes(rid int, byASN bool, v uint32, ebgp bool, peerAS uint32, asn4, addPath bool) []byte {
 	var asns []uint32
